@@ -10,6 +10,7 @@ import (
 	"path/filepath"
 	"sort"
 	"strings"
+	"sync"
 	"syscall"
 	"time"
 
@@ -470,6 +471,83 @@ func clobberCase(dir, cid, kind, writer string, rows []map[string]string, valid 
 	os.Remove(path)
 }
 
+// clobberRace: (a) two writers flush to the same path at the same time: exactly one may win and
+// the file must be the winner's; (b) a file that appears at the output path while a Flush is
+// under way must not be replaced by a Flush that reports success.
+func clobberRace(dir, cid string, rows []map[string]string) {
+	verdict := "OK"
+	for round := 0; round < 12 && verdict == "OK"; round++ {
+		path := filepath.Join(dir, fmt.Sprintf("%s-race%d.out", cid, round))
+		var wg sync.WaitGroup
+		errs := make([]error, 2)
+		start := make(chan struct{})
+		for k := 0; k < 2; k++ {
+			wg.Add(1)
+			go func(k int) {
+				defer wg.Done()
+				w := updog.NewIndexWriter(path)
+				for _, r := range rows {
+					w.AddRow(r)
+				}
+				w.AddRow(map[string]string{"writer": fmt.Sprintf("w%d", k)})
+				<-start
+				errs[k] = w.Flush()
+			}(k)
+		}
+		close(start)
+		wg.Wait()
+		wins := 0
+		for _, e := range errs {
+			if e == nil {
+				wins++
+			}
+		}
+		if wins != 1 {
+			verdict = fmt.Sprintf("TWO-WRITERS-%d-SUCCEEDED", wins)
+		}
+		os.Remove(path)
+	}
+	if verdict == "OK" {
+		// (b) the sentinel
+		big := make([]map[string]string, 0, 6000)
+		for i := 0; i < 6000; i++ {
+			big = append(big, map[string]string{"u": fmt.Sprintf("u%06d", i), "k": fmt.Sprintf("%d", i%7)})
+		}
+		sub := filepath.Join(dir, cid+"-sentinel")
+		os.MkdirAll(sub, 0755)
+		path := filepath.Join(sub, "out.updog")
+		w := updog.NewIndexWriter(path)
+		for _, r := range big {
+			w.AddRow(r)
+		}
+		done := make(chan error, 1)
+		go func() { done <- w.Flush() }()
+		created := false
+		deadline := time.Now().Add(5 * time.Second)
+		for time.Now().Before(deadline) && !created {
+			ents, _ := os.ReadDir(sub)
+			if len(ents) > 0 {
+				f, err := os.OpenFile(path, os.O_CREATE|os.O_EXCL|os.O_WRONLY, 0644)
+				if err == nil {
+					f.WriteString("precious bytes that appeared meanwhile")
+					f.Close()
+					created = true
+				}
+				break
+			}
+		}
+		ferr := <-done
+		if created && ferr == nil {
+			b, _ := os.ReadFile(path)
+			if string(b) != "precious bytes that appeared meanwhile" {
+				verdict = "FILE-CREATED-DURING-FLUSH-WAS-REPLACED"
+			}
+		}
+		os.RemoveAll(sub)
+	}
+	pr("CLOBBERRACE %s %s\n", cid, verdict)
+}
+
 func readOnlyCase(dir, cid, valid string, rows []map[string]string, mode string, seed int64) {
 	path := filepath.Join(dir, cid+".ro")
 	copyFile(valid, path)
@@ -544,6 +622,9 @@ func filesCmd(args []string) {
 		case "CLOBBER":
 			cid, ds, kind, writer := t.next(), t.next(), t.next(), t.next()
 			clobberCase(dir, cid, kind, writer, datasets[ds].rows, getValid(ds))
+		case "CLOBBERRACE":
+			cid, ds := t.next(), t.next()
+			clobberRace(dir, cid, datasets[ds].rows)
 		case "READONLY":
 			cid, ds, mode := t.next(), t.next(), t.next()
 			readOnlyCase(dir, cid, getValid(ds), datasets[ds].rows, mode, int64(t.int()))
